@@ -649,10 +649,12 @@ def generate(repo):
         z = _n(ast.unparse(ret.elts[0]))
         if [ast.unparse(e) for e in ret.elts[1:]] != [gx, gy]:
             return None
-        ok = (z == _n("conic_sag(params['c'], params['k'], r * r)") and args[0] == _n("conic_sag_der(params['c'], params['k'], r)")
-              and args[2:] == ['r', 't'])
-        if not ok:
+        live_z, live_d = _n("conic_sag(params['c'], params['k'], r * r)"), _n("conic_sag_der(params['c'], params['k'], r)")
+        frozen_z, frozen_d = _n('conic_sag(c, k, r * r)'), _n('conic_sag_der(c, k, r)')
+        if args[2:] != ['r', 't'] or z not in (live_z, frozen_z) or args[0] not in (live_d, frozen_d):
             return None
+        if (z == live_z) != (args[0] == live_d):
+            return False        # sag and slope read DIFFERENT copies of (c, k): they disagree once surf.params is modified
         return args[1] == '0'          # a rotationally symmetric surface has no azimuthal derivative
     g.fact('conicUsesSagDerAndZeroAzimuthal', 'prysm/x/raytracing/surfaces.py:Surface.conic', conic_ffp)
 
